@@ -12,7 +12,7 @@ of subscribe/produce operations, with handlers that publish re-entrantly (to oth
 `Stratified`), every (consumer, topic) subscribed at most once, and enough fuel for the
 re-entrancy depth (`N` bounds the ranks). -/
 theorem bus_exactly_once_in_order (h : Handler) (ops : List BusOp) (rank : Topic → Nat) (N : Nat)
-    (hN : ∀ T, rank T < N) (hstrat : Stratified h ops rank) (honce : SubscribeOnce ops)
+    (hN : ∀ T, rank T < N) (hstrat : Stratified h rank) (honce : SubscribeOnce ops)
     (fuel : Nat) (hfuel : 2 * N + 2 ≤ fuel) (k : Cid) (T : Topic) :
     let b := ops.foldl (Bus.apply h fuel) {}
     b.received k T = if k ∈ b.subsOf T then b.log T else [] := by
@@ -24,7 +24,7 @@ theorem bus_exactly_once_in_order (h : Handler) (ops : List BusOp) (rank : Topic
 /-- the topic logs are exactly what was produced (top level and re-entrantly), so with no
 handlers publishing the log of `T` is the list of values produced to `T` in order. -/
 theorem log_no_handlers (ops : List BusOp) (fuel : Nat) (hfuel : 1 ≤ fuel) (T : Topic) :
-    (ops.foldl (Bus.apply (fun _ _ => []) fuel) {}).log T =
+    (ops.foldl (Bus.apply (fun _ _ _ => []) fuel) {}).log T =
       ops.filterMap (fun op => match op with
         | .produce T' v => if T' = T then some v else none
         | .subscribe _ _ => none) := by
@@ -36,7 +36,7 @@ theorem log_no_handlers (ops : List BusOp) (fuel : Nat) (hfuel : 1 ≤ fuel) (T 
 /-- necessity of `SubscribeOnce`: subscribing twice replays the log twice. -/
 theorem resubscribe_duplicates :
     let ops := [BusOp.produce "t" 1, .produce "t" 2, .subscribe 0 ["t"], .subscribe 0 ["t"]]
-    (ops.foldl (Bus.apply (fun _ _ => []) 4) {}).received 0 "t" = [1, 2, 1, 2] := by
+    (ops.foldl (Bus.apply (fun _ _ _ => []) 4) {}).received 0 "t" = [1, 2, 1, 2] := by
   simp [Bus.apply, Bus.subscribe, Bus.replay, Bus.push, Bus.deliverAll, Bus.deliver, Bus.pushAll,
     Bus.received, Bus.subsOf, Bus.log, agetD, alookup, upsert, sinsert]
 
@@ -52,20 +52,24 @@ theorem topic_injective (a b : Comp) (hab : a ≠ b) :
 theorem topic_in_ne_out (a b : Comp) : inputTopic a ≠ outputTopic b :=
   topic_ne_of_suffix _ _ _ _ _ (by decide) (by decide)
 
+/-! non-vacuity: a stratified re-entrant history; consumer 0 publishes to `u`, which it ALSO
+subscribes to (late, together with `t`, in one subscribe call) -/
+def exOps2 : List BusOp :=
+  [.produce "t" 1, .produce "t" 2, .subscribe 0 ["t", "u"], .produce "t" 3]
+
 /-! non-vacuity: a stratified re-entrant history -/
-def exHandler : Handler := fun k v => if k = 0 then [("u", v + 10)] else []
+def exHandler : Handler := fun k T v => if k = 0 ∧ T = "t" then [("u", v + 10)] else []
 def exOps : List BusOp :=
   [.subscribe 0 ["t"], .produce "t" 1, .subscribe 1 ["u"], .produce "t" 2, .subscribe 2 ["t"]]
 
-example : Stratified exHandler exOps (fun T => if T = "u" then 1 else 0) := by
-  intro k v T' v' hmem T hT
+example : Stratified exHandler (fun T => if T = "u" then 1 else 0) := by
+  intro k T v T' v' hmem
   unfold exHandler at hmem
   split at hmem
-  · subst k
+  · rename_i hc
+    obtain ⟨rfl, rfl⟩ := hc
     simp at hmem
     obtain ⟨rfl, _⟩ := hmem
-    simp [subscribedTopics, exOps] at hT
-    subst hT
     decide
   · simp at hmem
 example : SubscribeOnce exOps := by
@@ -74,5 +78,45 @@ example : SubscribeOnce exOps := by
   simp only [List.flatMap_cons, List.flatMap_nil]
   by_cases h0 : 0 = k <;> by_cases h1 : 1 = k <;> by_cases h2 : 2 = k <;>
     first | omega | simp [h0, h1, h2]
+
+example : SubscribeOnce exOps2 := by
+  intro (k : Nat)
+  unfold subscribedTopics exOps2
+  simp only [List.flatMap_cons, List.flatMap_nil]
+  by_cases h0 : 0 = k <;> simp [h0]
+
+/-- the case the per-consumer reading of `Stratified` excluded: consumer 0 forwards `t → u` and
+subscribes to both in ONE late call; the replay of `t` publishes 11, 12 to `u` before 0 is a
+subscriber of `u`, the replay of `u` then hands them over once, and 13 arrives live. -/
+example : (exOps2.foldl (Bus.apply exHandler 6) {}).log "u" = [11, 12, 13] := by
+  simp [exOps2, exHandler, Bus.apply, Bus.subscribe, Bus.replay, Bus.push, Bus.deliverAll,
+    Bus.deliver, Bus.pushAll, Bus.subsOf, Bus.log, agetD, alookup, upsert, sinsert]
+example : (exOps2.foldl (Bus.apply exHandler 6) {}).received 0 "u" = [11, 12, 13] := by
+  simp [exOps2, exHandler, Bus.apply, Bus.subscribe, Bus.replay, Bus.push, Bus.deliverAll,
+    Bus.deliver, Bus.pushAll, Bus.received, Bus.subsOf, Bus.log, agetD, alookup, upsert, sinsert]
+example : (exOps2.foldl (Bus.apply exHandler 6) {}).received 0 "t" = [1, 2, 3] := by
+  simp [exOps2, exHandler, Bus.apply, Bus.subscribe, Bus.replay, Bus.push, Bus.deliverAll,
+    Bus.deliver, Bus.pushAll, Bus.received, Bus.subsOf, Bus.log, agetD, alookup, upsert, sinsert]
+
+end Tickit
+
+namespace Tickit
+
+/-- **nothing is dropped** (the complement of `bus_exactly_once_in_order`, which holds for any
+fuel because starved publications are dropped whole): with fuel covering the re-entrancy depth,
+every value produced at top level is in its topic's log, and every publication a handler made
+in reaction to a delivery is in its topic's log as well. -/
+theorem produced_is_logged (h : Handler) (ops : List BusOp) (fuel : Nat) (hfuel : 1 ≤ fuel) (T : Topic) (v : Int)
+    (hp : BusOp.produce T v ∈ ops) : v ∈ (ops.foldl (Bus.apply h fuel) {}).log T := by
+  obtain ⟨n, rfl⟩ : ∃ n, fuel = n + 1 := ⟨fuel - 1, by omega⟩
+  exact fold_produced_logged n ops {} T v hp
+
+theorem reaction_is_logged (h : Handler) (ops : List BusOp) (rank : Topic → Nat) (N : Nat)
+    (hN : ∀ T, rank T < N) (hstrat : Stratified h rank) (honce : SubscribeOnce ops)
+    (fuel : Nat) (hfuel : 2 * N + 2 ≤ fuel) (k : Cid) (T : Topic) (v : Int)
+    (hd : (k, T, v) ∈ (ops.foldl (Bus.apply h fuel) {}).recv) (T' : Topic) (v' : Int) (hpub : (T', v') ∈ h k T v) :
+    v' ∈ (ops.foldl (Bus.apply h fuel) {}).log T' := by
+  -- `honce` is not needed for this direction
+  exact (fun _ => closed_of_history hstrat hN fuel (by omega) ops (k, T, v) hd (T', v') hpub) honce
 
 end Tickit
